@@ -282,6 +282,16 @@ def _check_chunk(jobs):
                     continue
             for site, msg in compare(obj["input"], got):
                 divs.append((site + (":no-id-column" if spec_noid else ""), msg, rep))
+            # the documented way in: verif.input.get_input(file name).  Every file of this process is written to the SAME path, one after the
+            # other -- what is read is what the file holds now, not what a file of that name held before (after seed C09-j)
+            with quiet():
+                got2 = project(verif.input.get_input(path))
+            n += 1
+            if spec_noid:
+                got2 = _rekey_noid(obj["input"], got2)
+            bad2 = [("text:locations:no-id-column", "other sites than the file's")] if got2 is None else compare(obj["input"], got2)
+            for site, msg in bad2[:2]:
+                divs.append((site + ":through-get_input", msg + " [read with verif.input.get_input, the path had held another file before]", rep))
         except SystemExit:
             divs.append(("text:error-exit", "reading a well-formed file ended in an error exit", rep))
         except Exception as e:
